@@ -14,8 +14,8 @@ CLAIMS = {
          'Trusted: printer, CBMC, std heap algorithms as typestate stubs, opaque Cabinet/ObjectPool, clock stub, callback stub. Heap content is abstract; TimerEventImpl and sleep time are not covered.',
          'CBMC function/loop contracts with heap typestate ghost on mechanically extracted C', '6 C02'),
  'C03': ('other',
-         'epoll descriptor events under CBMC contracts: enable/disable keep subscriber counts, list membership and kernel registration consistent; kernel interest is exactly the set of conditions with a subscriber (ADD/MOD/DEL chosen correctly); a callback runs only when a subscribed condition is ready, once, a one-shot event being disabled first; dispatch walks a snapshot and calls back only events that are still subscribed at their turn.',
-         'Trusted: printer, CBMC, epoll_ctl / loop hook / callback stubs, vector model. The epoll and select loops (per-pass record lookup, keep-alive) and the select event class are not under contract; their fixes are covered by native scenario drivers only.',
+         'epoll descriptor events under CBMC contracts: enable/disable keep subscriber counts, list membership and kernel registration consistent; kernel interest is exactly the set of conditions with a subscriber (ADD/MOD/DEL chosen correctly); a callback runs only when a subscribed condition is ready, once, a one-shot event being disabled first; dispatch walks a snapshot and calls back only events that are still subscribed at their turn; the epoll and select passes look the shared record up by descriptor for every ready entry, skip it when it is gone and keep it alive during dispatch; select dispatches only when select() reported readiness.',
+         'Trusted: printer, CBMC, epoll_ctl / loop hook / callback stubs, vector model. The select event class, fillFdSets and shared-record reference counting are not under contract.',
          'CBMC function/loop contracts with call-order ghosts on mechanically extracted C', '6 C03'),
  'C05': ('other',
          'ThreadPool under CBMC contracts (one thread visible): guarded-by obligations (stop flag, idle counter only under the pool mutex), worker loop (idle count restored on every path, stop flag checked after each wake-up, task body exactly once outside the lock between register/unregister, completion callback posted after the body), initialize (flag cleared before workers exist), priority-first FIFO pop and cancel over all priority levels (bounded domain).',
@@ -77,8 +77,8 @@ CLAIMS = {
          'Coroutine Semaphore, Mutex and Channel<int> under unbounded CBMC contracts: a routine is queued before every wait and re-checks after every wake-up; every release / unlock / send makes the resource available first and then wakes one live waiter (stale tokens skipped) whatever the count or queue length; semaphore count never negative; mutex taken only when seen free, re-entrant for the holder, unlocked only by the holder; channel reads the front, appends at the back.',
          'Trusted: printer, CBMC, Scheduler stubs (wait = other routines run), size-only queue model. The scheduler, Condition/Broadcast and the whole-run induction are not covered.',
          'CBMC function/loop contracts with ghost waiter bookkeeping on mechanically extracted C', '6 C18'),
- 'C19': ('proof',
-         'Per-function CBMC contracts and loop-free/complete-unwinding lemmas on the C re-printed from the real codec sources: size functions, frames (no write beyond capacity, no read outside input), exact inverse on every value, CRC/checksum/MD5/AES equal to reference definitions written from the standards.',
+ 'C19': ('other',
+         'Per-function CBMC contracts and loop-free/complete-unwinding lemmas on the C re-printed from the real codec sources: size functions, frames (no write beyond capacity, no read outside input), exact inverse on every value, CRC/checksum/MD5 equal to reference definitions written from the standards (scalable integer, base64, CRC16/32, checksum8, serializer, MD5; AES, hex-string and URL codecs are not under contract).',
          'Trusted: clang-AST->C printer, CBMC+SAT, allocator never fails, libc models; std::string/vector overloads only through their shared loops; see evidence.assumptions.',
          'CBMC function contracts (goto-instrument --dfcc) on mechanically extracted C', '6 C19'),
 }
